@@ -221,8 +221,11 @@ class MoveMemrefDims(RewritePattern):
 
         def memref_op_outside_loop(memref_op: Operation | Block, index: int) -> bool:
             if isinstance(memref_op, Block):
-                # This happens when the dim is called on an input argument
-                return True
+                # This happens when the dim is called on an input argument - a value that is carried
+                # through the loop the dim would be moved out of is not available in front of it
+                for_op = find_parent_for_loop(dim_op)
+                owner = memref_op.parent_op()
+                return for_op is None or owner is None or not for_op.is_ancestor(owner)
             if isinstance(memref_op, memref.SubviewOp):
                 subview_size = get_subview_dim(memref_op, index)
                 if isinstance(subview_size, int):
